@@ -607,6 +607,11 @@ func corpus() []corpusCase {
 		cc("sethaselement", want(cty.True), stV(strs("a", "b")...), sV("a")),
 		cc("sethaselement", want(cty.False), stV(strs("a", "b")...), sV("c")),
 		cc("sethaselement", want(cty.False), cty.SetValEmpty(cty.String), sV("c")),
+		// F-153: wholly known operands whose types differ in a dynamic part give False, not unknown
+		cc("sethaselement", want(cty.False), cty.SetValEmpty(cty.DynamicPseudoType), sV("a")),
+		cc("sethaselement", want(cty.False), cty.SetVal([]cty.Value{cty.NullVal(cty.DynamicPseudoType)}), sV("a")),
+		cc("sethaselement", want(cty.False), cty.SetValEmpty(cty.String), cty.ListValEmpty(cty.DynamicPseudoType)),
+		cc("sethaselement", want(cty.False), cty.SetValEmpty(cty.Object(map[string]cty.Type{"c": cty.DynamicPseudoType})), cty.ObjectVal(map[string]cty.Value{"c": sV("x")})),
 		cc("sethaselement", want(cty.True), stV(nI(2)), nP("2")),
 		cc("sethaselement", want(cty.True), stV(lV(sV("a")), lV(sV("b"))), lV(sV("b"))),
 		cc("sethaselement", nil, stV(strs("1")...), nI(1)),
